@@ -24,7 +24,7 @@ enum Tok {
 const LITS: [char; 22] = [
     'a', 'b', 'c', 'f', 'o', 'x', 'A', 'B', 'Z', '0', '1', '2', '9', '-', '-', '.', '_', '+', 'é', 'p', 'y', '3',
 ];
-const SETCH: [char; 12] = ['a', 'b', 'c', 'x', 'z', 'A', 'C', 'Z', '0', '3', '5', '9'];
+const SETCH: [char; 18] = ['a', 'b', 'c', 'x', 'z', 'A', 'C', 'Z', '0', '3', '5', '9', '[', '.', '+', '_', ',', 'é'];
 
 fn set_member() -> BoxedStrategy<(char, char)> {
     prop_oneof![
@@ -297,7 +297,7 @@ pub fn property() -> Property {
         rule: "Patterns without { } < >: token lists (<= 10) of literals (letters of both cases, digits, - . _ + é), '*' (never adjacent to another '*'), '?', '[set]' / '[!set]' with 1-3 members (single alphanumerics or ascending ranges) and a literal ']'; shapes forced often: metacharacter in position 0 or 1, 0-2-token patterns, plain patterns. Names: an instance of the pattern, then with probability 1/2 one mutation (change first / second / last / any character, delete, insert, truncate to 0/1/2 characters, drop first/second character, append). Separate stream of malformed globs (unclosed '[', '***'). Oracle: with a metacharacter -> compiles iff well-formed and matches iff M-glob (own shell-glob matcher) does; without -> matches iff byte-identical. Non-trivial = the pattern has a metacharacter, or the name differs from a plain pattern in exactly one of its first two characters. Distinct = distinct (pattern, name).",
         assumptions: vec![
             "names with a leading '.' or containing '/' and patterns with '**' are outside the generated subset (shell and crate conventions differ there)",
-            "sets contain only alphanumeric members and ascending ranges",
+            "set members are alphanumerics, '[' '.' '+' '_' ',' 'é' and ascending alphanumeric ranges (no '-', ']', '^', '!' as members)",
         ],
         streams: vec![
             random_stream("patterns", "grammar-generated glob / plain patterns against instances and mutations", case_strategy, |t| t.pick(200_000, 10_000_000), check),
